@@ -64,10 +64,16 @@ class FxModel(Core.Model, IDecodable):
         return m
 
 
+POPPING = [False]      # decode functions that consume their parameters (dict.pop) instead of reading them
+
+
 class FxSystem(Core.System, IDecodable):
     @staticmethod
     def decode(params):
         LOG.append(['system', params['id'], _state(params.get('model'))])
+        if POPPING[0]:
+            return FxSystem(params['id'], params['model'], priority=params.pop('priority', 0),
+                            frequency=params.pop('frequency', 1), start=params.pop('start', 0), end=params.pop('end', 10 ** 9))
         return FxSystem(params['id'], params['model'], priority=params['priority'], frequency=params['frequency'],
                         start=params['start'], end=params['end'])
 
@@ -326,6 +332,7 @@ def _expected_log(case, mid):
 
 def decode_case(case):
     reset_library()
+    POPPING[0] = bool(case.get('popping'))
     main = sys.modules['__main__']
     me = sys.modules[MOD]
     me.fx_hook = _FX_HOOK_V1
@@ -523,6 +530,7 @@ def cases(tier):
                     out.append(dict(base, late_at=at))
             out.append(dict(base, hooks_in_main=True))
             out.append(dict(base, facade=True))
+            out.append(dict(base, popping=True))
             for hk in HOOK_KINDS:
                 out.append(dict(base, hook_kind=hk))
                 out.append(dict(base, hook_kind=hk, module_key=False))
